@@ -1049,7 +1049,12 @@ class QamExact(Harness):
         fu = repo_module(FU)
         sy = fu.QAM(cfg['M']).symbols
         assert abs(float(np.mean(np.abs(sy)**2)) - 1) < 1e-12
-        return 1
+        rp = self.replay(cfg, 'concrete', {})
+        if rp['reproduced']:
+            from pysym.runner import ConcreteViolation
+            raise ConcreteViolation(rp['key'] + ':concrete-probe',
+                                    rp['detail'])
+        return 2
 
 
 # ---------------------------------------------------------------------------
